@@ -23,7 +23,7 @@ def main():
             "demonstration": demos[0],
             "demonstration_cmd": f"cp {demos[0]} <repo>/tests/ && CARGO_NET_OFFLINE=true cargo test --offline --test {demos[0][:-3]}",
             "confirmed_by_me": {
-                "worktree_commit": "595426e (pinned)",
+                "worktree_commit": "HEAD of /repo at the time the agent ran (pinned commit + fix: commits made until then)",
                 "existing_suite_with_patch": re.search(r"\[(.*?)\]", line[0]).group(1),
                 "demo_with_patch": "fails (exit 101)",
                 "demo_without_patch": "passes (exit 0)",
